@@ -287,9 +287,9 @@ func manyReferrers() []vh.NodeSpec {
 	return []vh.NodeSpec{{}, {Kind: "blob", Edges: []vh.Edge{}},
 		{Kind: "manifest", Edges: []vh.Edge{e("config", 1)}},
 		{Kind: "manifest", Art: "application/vnd.verif.sig", Edges: []vh.Edge{e("subject", 2), e("config", 1)}},
-		{Kind: "artifact", Art: "application/vnd.verif.sbom", Edges: []vh.Edge{e("subject", 2), e("blob", 1)}},
+		{Kind: "artifact", Art: "application/vnd.verif.sbom+json", Edges: []vh.Edge{e("subject", 2), e("blob", 1)}},
 		{Kind: "manifest", Art: "application/vnd.verif.sig", Ann: map[string]string{"k": "2"}, Edges: []vh.Edge{e("subject", 2), e("config", 1)}},
-		{Kind: "artifact", Art: "application/vnd.verif.sbom", Ann: map[string]string{"k": "2"}, Edges: []vh.Edge{e("subject", 2), e("blob", 1)}}}
+		{Kind: "artifact", Art: "application/vnd.verif.sbom+json", Ann: map[string]string{"k": "2"}, Edges: []vh.Edge{e("subject", 2), e("blob", 1)}}}
 }
 
 func genScenario(rng *rand.Rand, id int) Scenario {
@@ -342,7 +342,7 @@ func genScenario(rng *rand.Rand, id int) Scenario {
 	for i, steps := 0, 8+rng.Intn(10); i < steps; i++ {
 		x := rng.Intn(100)
 		if crafted && rng.Intn(2) == 0 {
-			sc.Ops = append(sc.Ops, Op{Op: "referrers", N: 2, Ref: []string{"", "application/vnd.verif.sig", "application/vnd.verif.sbom"}[rng.Intn(3)]})
+			sc.Ops = append(sc.Ops, Op{Op: "referrers", N: 2, Ref: []string{"", "application/vnd.verif.sig", "application/vnd.verif.sbom+json"}[rng.Intn(3)]})
 			continue
 		}
 		switch {
@@ -393,7 +393,7 @@ func genScenario(rng *rand.Rand, id int) Scenario {
 		case x < 87:
 			sc.Ops = append(sc.Ops, Op{Op: "pred", N: node()})
 		case x < 90:
-			sc.Ops = append(sc.Ops, Op{Op: "referrers", N: node(), Ref: []string{"", "application/vnd.verif.sig", "application/vnd.verif.sbom",
+			sc.Ops = append(sc.Ops, Op{Op: "referrers", N: node(), Ref: []string{"", "application/vnd.verif.sig", "application/vnd.verif.sbom+json",
 				"application/vnd.verif.art", vh.MTLayer}[rng.Intn(5)]})
 		case x < 94:
 			sc.Ops = append(sc.Ops, Op{Op: "tags"})
